@@ -77,6 +77,35 @@ Theorem C08_nothing_arrives_after_close : forall s h,
   endpoint_closed s = true -> step s (StreamArrive h) = None.
 Proof. exact nothing_arrives_after_close. Qed.
 
+(** The manager's mailbox is bounded (its capacity is left open): a call issued while it is full
+    waits for room ([Issue]) and enters it later ([Admit], oldest first).  Waiting callers change
+    nothing the manager sees - in particular not the measure that bounds shutdown, which counts neither
+    [Issue] nor [Admit] - and a caller still waiting when the manager finishes gets an error like
+    every other pending call: after [Finish] every call ever issued has been answered. *)
+Theorem C08_waiting_caller_leaves_manager_alone : forall s k s',
+  step s (Issue k) = Some s' ->
+  ph s' = ph s /\ hands s' = hands s /\ entries s' = entries s /\ inbound s' = inbound s /\ meas s' = meas s.
+Proof. exact waiting_leaves_manager_alone. Qed.
+
+Theorem C08_oldest_waiting_caller_is_admitted : forall s k pre post,
+  first_waiting (calls s) = Some (k, pre, post) ->
+  step s Admit = Some (set_calls s (pre ++ Queued k :: post))
+  /\ calls s = pre ++ Waiting k :: post
+  /\ forallb (fun c => match c with Waiting _ => false | _ => true end) pre = true.
+Proof. exact admit_oldest_waiting. Qed.
+
+Theorem C08_finish_answers_every_call : forall s s',
+  step s Finish = Some s' -> forallb answered (calls s') = true.
+Proof. exact finish_answers_all. Qed.
+
+Example C08_full_mailbox_ex :   (* capacity 1: a connect is queued, a second connect and the shutdown wait for room *)
+  match run init [Submit CConnect; Issue CConnect; Issue CShutdown; Process; Admit; Process; Admit; Issue CConnect; Process;
+                  AbortPending; AllJoined; Assert; Finish; Issue CConnect] with
+  | Some s => ph s = MDone /\ calls s = [Answered false; Answered false; Answered true; Answered false; Answered false]
+  | None => False
+  end.
+Proof. vm_compute. repeat split. Qed.
+
 Example C08_late_request_ex :   (* a stream that arrived before the close is accepted after it, then dropped with the handler *)
   match run init [Incoming; InboundDone true 7; StreamArrive 0; Submit CShutdown; Process; ReqStart 0; AbortPending;
                   HExit 0; HAbort 0; Join 0; AllJoined; Assert; Finish] with
@@ -105,3 +134,6 @@ Print Assumptions C08_former_teardown_witnesses.
 Print Assumptions C08_cleanup_reports_leftovers.
 Print Assumptions C08_accepted_trace_is_model_run.
 Print Assumptions C08_nothing_arrives_after_close.
+Print Assumptions C08_waiting_caller_leaves_manager_alone.
+Print Assumptions C08_oldest_waiting_caller_is_admitted.
+Print Assumptions C08_finish_answers_every_call.
